@@ -9,7 +9,7 @@ import (
 
 // ---------------- scenario generators ----------------
 var nameAlphabet = []string{"a", "b", "c", "d"}
-var subAlphabet = []string{"", "", "", "s", "t"}
+var subAlphabet = []string{"", "", "", "", "s", "t", "k=1", "k=2"}
 
 type gctx struct {
 	r       *rng
@@ -19,8 +19,9 @@ type gctx struct {
 	st      stats
 	noSub   bool // C08 domain: no subtypes
 	noIface bool
-	built   bool // some functions are assembled with BuildFunc
+	built   bool    // some functions are assembled with BuildFunc
 	derived []Field // requirements already made derivable through a converter
+	repSub  bool    // type-only struct fields may repeat a type when their subtypes differ
 }
 
 func (c *gctx) sub() string {
@@ -58,7 +59,7 @@ func (c *gctx) fields(form int, n int) []Field {
 			if f.Name != "" && g.Name == f.Name {
 				dup = true
 			}
-			if f.Name == "" && g.Name == "" && g.Ty == f.Ty && form != FPos {
+			if f.Name == "" && g.Name == "" && g.Ty == f.Ty && form != FPos && (g.Sub == f.Sub || !c.repSub) {
 				dup = true
 			}
 		}
@@ -195,6 +196,7 @@ func (c *gctx) derive(f Field, depth int, convs *[]int) []Opt {
 	nin := []int{0, 1, 1, 1, 1, 2, 2, 3}[c.r.intn(8)]
 	in := c.fields(FStruct, nin)
 	shared := map[int]bool{}
+	forceNamed := map[int]bool{}
 	if len(c.derived) > 0 && c.r.chance(35) {
 		// one input is a requirement that is ALREADY derivable through another
 		// converter of this scenario: that converter is then needed on two paths
@@ -227,8 +229,48 @@ func (c *gctx) derive(f Field, depth int, convs *[]int) []Opt {
 			}
 		}
 	}
+	if c.repSub && c.r.chance(40) {
+		// a type-only sibling input that differs only by its subtype and is NOT supplied
+		for i, x := range in {
+			if _, isIface := carrier[x.Ty]; x.Name == "" && !isIface {
+				sib := Field{Ty: x.Ty, Sub: map[string]string{"": "s", "s": "", "t": "", "k=1": "k=2", "k=2": "k=1"}[x.Sub]}
+				in = append(in, sib)
+				shared[len(in)-1] = true
+				if c.r.chance(60) {
+					forceNamed[i] = true
+				}
+				break
+			}
+		}
+	}
 	out := []Field{f}
-	if c.r.chance(12) && !c.noSub {
+	if _, isIface := carrier[f.Ty]; isIface && f.Ty != 12 && c.r.chance(50) {
+		// the converter returns an IMPLEMENTATION of the required interface type
+		impls := map[int][]int{10: {0, 1, 3, 11}, 11: {1}}[f.Ty]
+		if len(impls) > 0 {
+			g := f
+			g.Ty = impls[c.r.intn(len(impls))]
+			if g.Name == "" {
+				out = []Field{g}
+			}
+		}
+	}
+	if c.r.chance(10) {
+		// a sibling result of the same type: named before type-only
+		g := out[0]
+		if g.Name == "" {
+			out = []Field{{Name: nameAlphabet[c.r.intn(len(nameAlphabet))], Ty: g.Ty, Sub: g.Sub}, g}
+		} else if c.r.chance(50) {
+			out = []Field{g, {Ty: g.Ty, Sub: g.Sub}}
+		} else {
+			// the named requirement can only be fed by the type-only result that FOLLOWS a
+			// result of the same type under another name
+			other := nameAlphabet[c.r.intn(len(nameAlphabet))]
+			if other != g.Name {
+				out = []Field{{Name: other, Ty: g.Ty, Sub: g.Sub}, {Ty: g.Ty, Sub: g.Sub}}
+			}
+		}
+	} else if c.r.chance(12) && !c.noSub {
 		// a second result of the same type (or name) that differs only by its subtype
 		g := f
 		g.Sub = map[string]string{"": "s", "s": "t", "t": "s"}[f.Sub]
@@ -256,6 +298,13 @@ func (c *gctx) derive(f Field, depth int, convs *[]int) []Opt {
 	for i, g := range in {
 		if shared[i] {
 			continue // already derivable through the earlier converter
+		}
+		if forceNamed[i] {
+			// only a NAMED value of the type is supplied
+			h := g
+			h.Name = nameAlphabet[c.r.intn(len(nameAlphabet))]
+			opts = append(opts, c.exactOpt(h))
+			continue
 		}
 		opts = append(opts, c.derive(g, depth-1, convs)...)
 	}
@@ -362,6 +411,22 @@ func genCallScenario(c *gctx, class int) {
 			o.Vals = []*Val{{Serial: c.serial, Ty: o.Vals[0].Ty}}
 		}
 	}
+	// several values in ONE Typed(...) option, a nil among them
+	var typedIdx []int
+	for i, o := range opts {
+		if o.Kind == "typed" && len(o.Vals) == 1 {
+			typedIdx = append(typedIdx, i)
+		}
+	}
+	if len(typedIdx) >= 2 && r.chance(40) {
+		a, b := typedIdx[0], typedIdx[1]
+		merged := Opt{Kind: "typed", Vals: []*Val{opts[a].Vals[0], nil, opts[b].Vals[0]}}
+		if r.chance(50) {
+			merged.Vals = []*Val{nil, opts[a].Vals[0], opts[b].Vals[0]}
+		}
+		opts[a] = merged
+		opts = append(opts[:b], opts[b+1:]...)
+	}
 	shuffleOpts(r, opts)
 	cs := c.convOpts(convs)
 	opts = append(opts, cs...)
@@ -406,6 +471,17 @@ func genCallScenario(c *gctx, class int) {
 	nops := 1
 	if r.chance(25) {
 		nops = 2 + r.intn(2)
+	}
+	if class != 1 && len(defaults) > 0 && len(opts) > 1 && r.chance(50) {
+		// f1 := NewFunc(fn, common...); f2 := NewFunc(fn, append(common, X)...): a Call on f1
+		// must not leak its options into f2's defaults (f2 lacks the first call option)
+		x := c.randomOpt()
+		d2 := append(append([]Opt(nil), defaults...), x)
+		c.sc.Ops = append(c.sc.Ops, Op{Kind: "call", Target: ti, Defaults: defaults, Opts: opts})
+		c.sc.Ops = append(c.sc.Ops, Op{Kind: "call", Target: ti, Defaults: d2, Opts: opts[1:], SharePrefix: 1})
+		c.sc.Ops = append(c.sc.Ops, Op{Kind: "call", Target: ti, Defaults: defaults, Opts: opts})
+		c.sc.Ops = append(c.sc.Ops, Op{Kind: "call", Target: ti, Defaults: d2, Opts: opts[1:], SharePrefix: 1})
+		return
 	}
 	if class == 1 && len(defaults) > 0 && len(opts) > 0 && r.chance(50) {
 		// two Funcs whose default slices share a backing array: the second has
@@ -557,6 +633,12 @@ func genRedefineScenario(c *gctx, strict bool) {
 		default: // reachable through a chain from a permitted type
 			cur := f
 			for d := 1 + r.intn(3); d > 0; d-- {
+				if r.chance(15) && cur.Name != "" {
+					// the chain starts at a provider (no inputs) returning a named value
+					convs = append(convs, c.addFunc(nil, []Field{cur}, FPos, FStruct))
+					cur = Field{Ty: -1}
+					break
+				}
 				src := fix([]Field{c.field(FStruct)})[0]
 				if strict {
 					src.Sub = ""
@@ -564,7 +646,9 @@ func genRedefineScenario(c *gctx, strict bool) {
 				convs = append(convs, c.addFunc([]Field{src}, []Field{cur}, c.formFor([]Field{src}), c.formFor([]Field{cur})))
 				cur = src
 			}
-			if r.chance(30) {
+			if cur.Ty < 0 {
+				// provider: nothing to supply or permit
+			} else if r.chance(30) {
 				opts = append(opts, c.exactOpt(cur))
 			} else {
 				permit = append(permit, cur.Ty)
@@ -621,24 +705,57 @@ func genRedefineScenario(c *gctx, strict bool) {
 		opts = append(opts, Opt{Kind: "filterout", Flt: &Flt{Kind: 1, Subs: subs}})
 	}
 	shuffleOpts(r, opts)
-	if r.chance(20) {
-		c.sc.Ops = append(c.sc.Ops, Op{Kind: "call", Target: ti, Opts: opts})
+	if !strict && r.chance(30) && len(c.sc.Funcs) > 1 {
+		// a converter fails when the redefined function is called
+		d := c.sc.Funcs[1+r.intn(len(c.sc.Funcs)-1)]
+		d.Err = true
+		c.sc.Beh = append(c.sc.Beh, BehRow{Fid: d.ID, From: 0, Kind: 1, Err: 903 + r.intn(3)})
 	}
-	c.sc.Ops = append(c.sc.Ops, Op{Kind: "redefine", Target: ti, Opts: opts})
+	var defaults []Opt
+	switch {
+	case r.chance(15):
+		// everything is a default of the function; Redefine() and Call() get no options
+		defaults, opts = opts, nil
+	case r.chance(20) && len(opts) > 0:
+		// defaults that CONFLICT with the options given to Redefine/Call: the latter win
+		for _, o := range opts {
+			switch o.Kind {
+			case "named", "typed", "namedsub", "typedsub":
+				alt := o
+				alt.Vals = nil
+				for _, v := range o.Vals {
+					if v != nil {
+						c.serial++
+						alt.Vals = append(alt.Vals, &Val{Serial: c.serial, Ty: v.Ty})
+					}
+				}
+				if len(alt.Vals) > 0 {
+					defaults = append(defaults, alt)
+				}
+			case "filterin":
+				defaults = append(defaults, Opt{Kind: "filterin", Flt: &Flt{Kind: 1, Subs: []Flt{{Kind: 0, Ty: c.cty()}}}})
+			}
+		}
+	}
+	if r.chance(20) {
+		c.sc.Ops = append(c.sc.Ops, Op{Kind: "call", Target: ti, Defaults: defaults, Opts: opts})
+	}
+	c.sc.Ops = append(c.sc.Ops, Op{Kind: "redefine", Target: ti, Defaults: defaults, Opts: opts})
 	ref := len(c.sc.Ops) - 1
 	c.sc.Ops = append(c.sc.Ops, Op{Kind: "callredef", Ref: ref})
 	if r.chance(30) {
-		c.sc.Ops = append(c.sc.Ops, Op{Kind: "redefine", Target: ti, Opts: opts})
+		c.sc.Ops = append(c.sc.Ops, Op{Kind: "redefine", Target: ti, Defaults: defaults, Opts: opts})
 		c.sc.Ops = append(c.sc.Ops, Op{Kind: "callredef", Ref: ref})
 	}
-	if r.chance(30) {
-		c.sc.Ops = append(c.sc.Ops, Op{Kind: "call", Target: ti, Opts: opts})
+	if r.chance(40) {
+		c.sc.Ops = append(c.sc.Ops, Op{Kind: "call", Target: ti, Defaults: defaults, Opts: opts})
 	}
 }
 
 // histories around run-once converters and Redefine (C09, C11)
 func genOnceScenario(c *gctx) {
 	r := c.r
+	c.built = r.chance(40)
 	genCallScenario(c, 0)
 	base := c.sc.Ops[0]
 	anyOnce := false
@@ -879,6 +996,16 @@ func genNameSubFamily(c *gctx) {
 	c.sc.Funcs[ti].Once, c.sc.Funcs[ti].Err = false, false
 	conv := c.addFunc([]Field{{Ty: T}}, []Field{{Ty: U}}, FPos, FPos)
 	c.sc.Funcs[conv].Once, c.sc.Funcs[conv].Err = false, false
+	if r.chance(35) {
+		// a int/s -> a int -> [conv by name] -> a U -> target: negative distances with
+		// successors still to discover
+		c.sc.Funcs = c.sc.Funcs[:0]
+		c.nextFid = 1
+		ti = c.addFunc([]Field{{Name: n, Ty: U}}, c.fields(FStruct, r.intn(2)), FStruct, FStruct)
+		c.sc.Funcs[ti].Once, c.sc.Funcs[ti].Err = false, false
+		conv = c.addFunc([]Field{{Name: n, Ty: T}}, []Field{{Name: n, Ty: U}}, FStruct, FStruct)
+		c.sc.Funcs[conv].Once, c.sc.Funcs[conv].Err = false, false
+	}
 	opts := []Opt{{Kind: "namedsub", Name: n, Sub: "s", Vals: []*Val{c.val(T)}}}
 	if r.chance(50) {
 		opts = append(opts, Opt{Kind: "named", Name: nameAlphabet[(indexOf(nameAlphabet, n)+2)%len(nameAlphabet)], Vals: []*Val{c.val(T)}})
@@ -1032,6 +1159,7 @@ func init() {
 		}
 	}))
 	register(resolverStream("call", func(c *gctx) {
+		c.repSub = c.r.chance(30)
 		switch {
 		case c.r.chance(8):
 			genGenScenario(c)
